@@ -1,6 +1,8 @@
 import PP.Driver.Codec
 import PP.Driver.Monitors
 import PP.Hand.Arbitrary
+import PP.Model.Piecewise.Arbitrary
+import PP.Model.Poly.Arbitrary
 import PP.Model.Serial
 /-!
 # `ppdrv`: the model side of the correspondence check
@@ -23,6 +25,11 @@ def verdict (a : Args) (model : Out) (monitor : Out → Option String := fun _ =
       match Out.parseLike model s with
       | none => "bad cannot parse impl"
       | some impl =>
+        -- the model returns a value here (and the model is what the property theorems are about): an implementation
+        -- that panics on this input does not return that value - a concrete failing input, not a mere disagreement
+        if (impl matches .panic) && !(model matches .panic) then
+          "MONFAIL the implementation panics on this input; the model, for which the property is proved, returns " ++ model.render
+        else
         match monitor impl with
         | some why => "MONFAIL " ++ why
         | none => if Out.same model impl then "ok" else "DISAGREE model=" ++ model.render
@@ -193,7 +200,8 @@ def goAbsDiff {T : Type} [Codec T FX] [AbsDiffEq T FX] (a : Args) : String :=
   | some p, some q, some eps =>
     verdict a (.bool (AbsDiffEq.absDiffEq p q eps))
       (fun impl => (Mon.defaultsOk (arg a "deps") (arg a "dmr")).orElse fun _ =>
-        Mon.approxAbs ((arg a "p").bind fxList? |>.getD []) ((arg a "q").bind fxList? |>.getD []) eps impl)
+        (Mon.approxAbs ((arg a "p").bind fxList? |>.getD []) ((arg a "q").bind fxList? |>.getD []) eps impl).orElse fun _ =>
+        Mon.eqImplies (arg a "eq") (((arg a "p").bind fxList? |>.getD []) ++ ((arg a "q").bind fxList? |>.getD [])) [eps] impl)
   | _, _, _ => "bad args"
 
 def goRelEq {T : Type} [Codec T FX] [RelativeEq T FX] (a : Args) : String :=
@@ -202,8 +210,25 @@ def goRelEq {T : Type} [Codec T FX] [RelativeEq T FX] (a : Args) : String :=
   | some p, some q, some eps, some mr =>
     verdict a (.bool (RelativeEq.relativeEq p q eps mr))
       (fun impl => (Mon.defaultsOk (arg a "deps") (arg a "dmr")).orElse fun _ =>
-        Mon.approxRel ((arg a "p").bind fxList? |>.getD []) ((arg a "q").bind fxList? |>.getD []) eps mr impl)
+        (Mon.approxRel ((arg a "p").bind fxList? |>.getD []) ((arg a "q").bind fxList? |>.getD []) eps mr impl).orElse fun _ =>
+        Mon.eqImplies (arg a "eq") (((arg a "p").bind fxList? |>.getD []) ++ ((arg a "q").bind fxList? |>.getD [])) [eps, mr] impl)
   | _, _, _, _ => "bad args"
+
+/-- `opsraw`: an operator impl the harness found in the crate by probing (C14 quantifies over every impl that exists);
+checked number by number against the soft-float operations, with no model instance involved -/
+def goOpsRaw (a : Args) : String :=
+  match arg a "op", (arg a "p").bind fxList?, a.get "impl" with
+  | some op, some p, some s =>
+    if s == "NOIMPL" then "ok" else
+    let q := (arg a "q").bind fxList? |>.getD []
+    let cmd := if op == "addassign" then "add" else if op == "subassign" then "sub" else op
+    match Out.parseLike (.nums []) s with
+    | none => "bad cannot parse impl"
+    | some impl =>
+      match Mon.ops cmd (arg a "T") p q ((arg a "s").bind fx?) impl with
+      | some why => "MONFAIL " ++ why
+      | none => "ok"
+  | _, _, _ => "bad args"
 
 /-! piecewise-level operations -/
 
@@ -299,7 +324,8 @@ def goPwAbsDiff {T : Type} [Codec T FX] [AbsDiffEq T FX] [Nums T FX] (a : Args) 
   | some f, some g, some eps =>
     verdict a (.bool (AbsDiffEq.absDiffEq f g eps))
       (fun impl => (Mon.defaultsOk (arg a "deps") (arg a "dmr")).orElse fun _ =>
-        Mon.approxAbsPw (f.map fun s => s.end :: Nums.nums s.poly) (g.map fun s => s.end :: Nums.nums s.poly) eps impl)
+        (Mon.approxAbsPw (f.map fun s => s.end :: Nums.nums s.poly) (g.map fun s => s.end :: Nums.nums s.poly) eps impl).orElse fun _ =>
+        Mon.eqImplies (arg a "eq") ((f ++ g).flatMap fun s => s.end :: Nums.nums s.poly) [eps] impl)
   | _, _, _ => "bad args"
 
 def goPwRelEq {T : Type} [Codec T FX] [AbsDiffEq T FX] [RelativeEq T FX] [Nums T FX] (a : Args) : String :=
@@ -307,7 +333,8 @@ def goPwRelEq {T : Type} [Codec T FX] [AbsDiffEq T FX] [RelativeEq T FX] [Nums T
   | some f, some g, some eps, some mr =>
     verdict a (.bool (RelativeEq.relativeEq f g eps mr))
       (fun impl => (Mon.defaultsOk (arg a "deps") (arg a "dmr")).orElse fun _ =>
-        Mon.approxRelPw (f.map fun s => s.end :: Nums.nums s.poly) (g.map fun s => s.end :: Nums.nums s.poly) eps mr impl)
+        (Mon.approxRelPw (f.map fun s => s.end :: Nums.nums s.poly) (g.map fun s => s.end :: Nums.nums s.poly) eps mr impl).orElse fun _ =>
+        Mon.eqImplies (arg a "eq") ((f ++ g).flatMap fun s => s.end :: Nums.nums s.poly) [eps, mr] impl)
   | _, _, _, _ => "bad args"
 
 def goMerge (a : Args) : String :=
@@ -355,13 +382,21 @@ def hexBytes? (s : String) : Option (List Nat) :=
     | _ => none
   go s.toList
 
-def goArbitrary {T : Type} [Nums T F64] (d : Hand.Arb.PieceDec T) (a : Args) : String :=
+def goArbitrary {T : Type} [Nums T F64] [Arb.ArbitraryT T] (d : Hand.Arb.PieceDec T) (a : Args) : String :=
   match (a.get "bytes").bind hexBytes? with
   | some bs =>
+    let toOut (pw : Piecewise F64 T) : Out := .segs (pw.segments.map fun s => (FX.v s.end, (Nums.nums s.poly).map FX.v))
     let model : Out := match Hand.Arb.arbitraryPw d bs with
       | none => .err
-      | some pw => .segs (pw.segments.map fun s => (FX.v s.end, (Nums.nums s.poly).map FX.v))
-    verdict a model (Mon.arbitrary (a.get "agree"))
+      | some pw => toOut pw
+    -- the GENERATED impl (PP/Model/Piecewise/Arbitrary.lean) on the same bytes; `ln`/`exp` are never called by it
+    let gen : Out := match @inst_Arbitrary_Piecewise_T.arbitrary F64 T _ (F64.inst (fun _ => F64.nan) (fun _ => F64.nan)) _ bs with
+      | .ok pw _ => toOut pw
+      | .err _ _ => .err
+      | .panic => .panic
+    if !(gen.same model) then
+      "DISAGREE generated-vs-hand gen=" ++ gen.render ++ " hand=" ++ model.render
+    else verdict a gen (Mon.arbitrary (a.get "agree"))
   | none => "bad args"
 
 
@@ -461,6 +496,7 @@ def handle (line : String) : String :=
       | "mulassign" => (forMulAssign! tag, goMulAssign, a)
       | "neg" => (forNegAdd! tag, goNeg, a)
       | "add" => (forNegAdd! tag, goAdd, a)
+      | "opsraw" => some (goOpsRaw a)
       | "absdiff" => (forAll! tag, goAbsDiff, a)
       | "releq" => (forAll! tag, goRelEq, a)
       | "pwderiv" => (forDeriv! tag, goPwDeriv, a)
